@@ -9,4 +9,5 @@ INVARIANT RoundTripXML
 INVARIANT MutantsRFC
 INVARIANT MutantsJSON
 INVARIANT MutantsXML
+INVARIANT MutantsNs
 CHECK_DEADLOCK FALSE
